@@ -57,6 +57,9 @@ type ValueCase struct {
 	// the process declares no data object of its own; the data objects come from ONE WithDataObjects option value
 	// that is used for every instance (an options slice an application builds once)
 	Shared bool `json:"shared,omitempty"`
+	// the two tasks (and the gateway) live inside an embedded sub-process; the data objects are declared by the
+	// process around it
+	InSub bool `json:"inSub,omitempty"`
 	env       *Env
 	defs      any
 	obs       []map[string]any // per instance: what was read
@@ -266,6 +269,7 @@ func genC16(d *Draw) Case {
 	defer func() {
 		c.Gate = d.Bool()
 		c.Shared = d.N(3) == 2
+		c.InSub = d.N(3) == 2
 		if c.Shared {
 			// conditions look data objects up by the name the document declares; objects that only the option
 			// supplies have none (they are read back through the next task's data input, by id)
@@ -350,6 +354,14 @@ func (c *ValueCase) xml() string {
 	b.WriteString(`<?xml version="1.0" encoding="UTF-8"?>` + "\n")
 	b.WriteString(`<bpmn:definitions xmlns:bpmn="http://www.omg.org/spec/BPMN/20100524/MODEL" xmlns:olive="http://olive.io/spec/BPMN/MODEL" xmlns:xsi="http://www.w3.org/2001/XMLSchema-instance" id="Defs" targetNamespace="http://bpmn.io/schema/bpmn" expressionLanguage="` + exprLang + `">` + "\n")
 	b.WriteString("  <bpmn:process id=\"P1\" isExecutable=\"true\">\n")
+	var decl strings.Builder // data object declarations: always at the level of the process
+	if c.InSub {
+		b.WriteString("    <bpmn:startEvent id=\"OS\"><bpmn:outgoing>OF1</bpmn:outgoing></bpmn:startEvent>\n")
+		b.WriteString("    <bpmn:endEvent id=\"OE\"><bpmn:incoming>OF2</bpmn:incoming></bpmn:endEvent>\n")
+		b.WriteString("    <bpmn:sequenceFlow id=\"OF1\" sourceRef=\"OS\" targetRef=\"S\"/>\n")
+		b.WriteString("    <bpmn:sequenceFlow id=\"OF2\" sourceRef=\"S\" targetRef=\"OE\"/>\n")
+		b.WriteString("    <bpmn:subProcess id=\"S\"><bpmn:incoming>OF1</bpmn:incoming><bpmn:outgoing>OF2</bpmn:outgoing>\n")
+	}
 	b.WriteString("    <bpmn:startEvent id=\"Start\"><bpmn:outgoing>F1</bpmn:outgoing></bpmn:startEvent>\n")
 	b.WriteString("    <bpmn:serviceTask id=\"T1\">\n      <bpmn:extensionElements>\n        <olive:results>\n")
 	for i := range c.Results {
@@ -409,14 +421,14 @@ func (c *ValueCase) xml() string {
 		b.WriteString("    <bpmn:sequenceFlow id=\"FB\" sourceRef=\"GX\" targetRef=\"TB\"><bpmn:conditionExpression xsi:type=\"bpmn:tFormalExpression\">getDataObject(&#34;who&#34;) == &#34;w1&#34;</bpmn:conditionExpression></bpmn:sequenceFlow>\n")
 		b.WriteString("    <bpmn:sequenceFlow id=\"FD\" sourceRef=\"GX\" targetRef=\"TD\"/>\n")
 		if !c.Shared {
-			b.WriteString("    <bpmn:dataObject id=\"who\" name=\"who\"/>\n")
+			decl.WriteString("    <bpmn:dataObject id=\"who\" name=\"who\"/>\n")
 		}
 	} else {
 		b.WriteString("    <bpmn:endEvent id=\"End\"><bpmn:incoming>F3</bpmn:incoming></bpmn:endEvent>\n")
 	}
 	for i := range c.Objects {
 		if !c.Shared {
-			fmt.Fprintf(&b, "    <bpmn:dataObject id=\"o%d\" name=\"o%d\"/>\n", i, i)
+			fmt.Fprintf(&decl, "    <bpmn:dataObject id=\"o%d\" name=\"o%d\"/>\n", i, i)
 		}
 	}
 	b.WriteString("    <bpmn:sequenceFlow id=\"F1\" sourceRef=\"Start\" targetRef=\"T1\"/>\n")
@@ -426,6 +438,10 @@ func (c *ValueCase) xml() string {
 	} else {
 		b.WriteString("    <bpmn:sequenceFlow id=\"F3\" sourceRef=\"T2\" targetRef=\"End\"/>\n")
 	}
+	if c.InSub {
+		b.WriteString("    </bpmn:subProcess>\n")
+	}
+	b.WriteString(decl.String())
 	b.WriteString("  </bpmn:process>\n</bpmn:definitions>\n")
 	return b.String()
 }
@@ -502,7 +518,7 @@ func (c *ValueCase) Main() {
 			L.AddG(i, "fatal", "NewProcess: "+err.Error(), "", 0)
 			return
 		}
-		traces := proc.Tracer().SubscribeChannel(make(chan tracing.ITrace, 8))
+		traces := proc.Tracer().SubscribeChannel(make(chan tracing.ITrace, 96)) // (this client starts reading after StartAll has returned: room for everything the start produces)
 		if err := proc.StartAll(ctx); err != nil {
 			L.AddG(i, "fatal", "StartAll: "+err.Error(), "", 0)
 			return
@@ -761,6 +777,7 @@ func checkC16(cc Case, r *simrt.Result) *Outcome {
 	o.Viol = vl.v
 	o.Nontrivial = r.Switches > 0
 	probe(o, "several-instances-at-once", c.Instances > 1 && c.Conc)
+	probe(o, "tasks-inside-a-sub-process-data-objects-declared-outside", c.InSub)
 	probe(o, "data-objects-from-one-option-value-shared-by-all-instances", c.Shared && c.Instances > 1)
 	probe(o, "gateway-reads-each-instance's-data-object", c.Gate)
 	probe(o, "gateway-reads-data-object-several-instances-at-once", c.Gate && c.Instances > 1 && c.Conc)
@@ -786,7 +803,7 @@ func checkC16(cc Case, r *simrt.Result) *Outcome {
 			break
 		}
 	}
-	o.Sample = map[string]any{"shared": c.Shared, "gate": c.Gate, "over": c.Over, "instances": c.Instances, "conc": c.Conc, "vars": c.Vars, "results": c.Results, "objects": c.Objects, "props": c.Props}
+	o.Sample = map[string]any{"inSub": c.InSub, "shared": c.Shared, "gate": c.Gate, "over": c.Over, "instances": c.Instances, "conc": c.Conc, "vars": c.Vars, "results": c.Results, "objects": c.Objects, "props": c.Props}
 	return o
 }
 
